@@ -179,9 +179,18 @@ func xf(a, b *proj.SR, x, y float64) (float64, float64, string) {
 
 var offsets = [][2]float64{{0, 0}, {-2.5, -2.5}, {2.5, -2.5}, {-2.5, 2.5}, {2.5, 2.5}, {0.37, 1.91}, {-1.13, -0.77}, {2.01, 0.05}, {-0.003, 2.4}}
 
+// a geographic reference with a 7-parameter datum: against it the closure of NewTransform takes the two-hop route
+// through defs["WGS84"] whenever the other side's DatumCode is not the literal "WGS84"
+const besselDef = "+proj=longlat +ellps=bessel +towgs84=598.1,73.7,418.2,0.202,0.045,-2.455,6.7 +no_defs"
+
 // grid: positions through both references to and from WGS84
 func grid(b *strings.Builder, P, W *proj.SR, glon, glat float64) {
 	wgs, _ := proj.Parse("WGS84")
+	gridVia(b, wgs, P, W, glon, glat)
+}
+
+// gridVia: positions through both references to and from the geographic reference `wgs`
+func gridVia(b *strings.Builder, wgs, P, W *proj.SR, glon, glat float64) {
 	fmt.Fprintf(b, " GRID %d", len(offsets))
 	for _, o := range offsets {
 		lon, lat := glon+o[0], glat+o[1]
@@ -300,6 +309,12 @@ func implLine(line string, out *bufio.Writer) {
 		fmt.Fprintf(&b, "P %s W %s EQ %s %s %s %s NIL %s %s %s", rp, rw, equalRes(P, P2), equalRes(W, W2), equalRes(P, W), equalRes(W, P),
 			nilRes(P, P2), nilRes(W, W2), nilRes(P, W))
 		grid(&b, P, W, dec(t[bar-2]), dec(t[bar-1]))
+		// second grid: to and from a reference with a 7-parameter datum (fresh references: LCC/Merc write defaults)
+		if bes, _ := parseRes(besselDef); bes != nil {
+			P3, _ := parseRes(p4)
+			W3, _ := parseRes(w)
+			gridVia(&b, bes, P3, W3, dec(t[bar-2]), dec(t[bar-1]))
+		}
 	case "twinx":
 		bar := -1
 		for i, x := range t {
